@@ -101,6 +101,28 @@ pub fn install_panic_hook() {
         } else {
             "<non-string panic>".to_string()
         };
+        // A panic raised inside std/deps (e.g. Duration arithmetic) on behalf
+        // of library code: attribute it to the innermost /repo/ frame.
+        let mut loc = loc;
+        if !loc.starts_with("/repo/") {
+            let bt = std::backtrace::Backtrace::force_capture().to_string();
+            let mut lib_frame: Option<String> = None;
+            for line in bt.lines() {
+                let l = line.trim();
+                if let Some(rest) = l.strip_prefix("at ") {
+                    if rest.starts_with("/repo/src/") {
+                        lib_frame = Some(rest.rsplitn(2, ':').nth(1).unwrap_or(rest).to_string());
+                        break;
+                    }
+                    if rest.contains("/verif/sim/src/") {
+                        break; // harness code is closer to the panic
+                    }
+                }
+            }
+            if let Some(f) = lib_frame {
+                loc = format!("{} (via {})", f, loc);
+            }
+        }
         let pi = PanicInfo { location: loc, message: msg };
         let is_sim = IS_SIM_THREAD.try_with(|c| c.get()).unwrap_or(false);
         if is_sim {
@@ -170,7 +192,7 @@ async fn spin_breaker() {
 }
 
 fn short_loc(loc: &str) -> String {
-    loc.trim_start_matches("/repo/").to_string()
+    loc.trim_start_matches("/repo/").split(" (via ").next().unwrap_or(loc).to_string()
 }
 
 /// Execute one run on a fresh OS thread. A pure function of
